@@ -1,13 +1,18 @@
-\* C18 conn GEN: simulated behaviours = peer scripts (reply order, delays, drops, cancellations, peer traffic).
+\* C18 conn GEN: simulated behaviours = peer scripts (reply order, delays, drops, cancellations, peer traffic,
+\* stray responses and peer calls with confusable typed ids).
 CONSTANTS
   NC = 3
   NN = 2
   MaxPN = 1
   MaxPC = 1
+  MaxStray = 1
   UseWriteMu = TRUE
   ChanCap = 1
   RegisterFirst = TRUE
+  AtomicAlloc = TRUE
+  IdDecode = "strict"
+  IdVocab = "full"
 INIT SimInit
 NEXT SimNext
-INVARIANTS Matched FramesNeverInterleave ReaderNeverBlocks PendingExact PrintHist
+INVARIANTS Matched UniqueIds IdTypePreserved DispatchedToOwner PeerCallsEchoed FramesNeverInterleave ReaderNeverBlocks PendingExact PrintHist
 CHECK_DEADLOCK FALSE
